@@ -12,11 +12,13 @@
       whose announced signing subset, for every arrival sequence of ready messages, contains no culprit.
    3. `left_out_waits_for_start`: a SubsetError leads to waiting for a start message, which is then accepted from any
       sender (`runWait none`), and no fail message can abort that wait.
-      `left_out_outlasts_coordinator_timeout`: that wait is limited by TssTimeout — silences longer than
-      CoordinatorTimeout change nothing (time-outs as events `TEv.quiet`; contrast `shorter_limit_expires`).
+      `left_out_waits_until_tss_timeout` / `left_out_gives_up_at_tss_timeout`: with an explicit clock — time is additive,
+      the fail watcher's TssTimeout ticker is never re-armed — the wait lasts exactly until TssTimeout has passed in total.
       `silent_coordinator_times_out`: with an explicit clock (`CEv.tick`), messages from peers other than the coordinator
       neither re-arm nor stop the coordinator time-out.
-   4. `unrecognised_failure_ends_session`, `non_retryable_never_retried`.
+   4. `unrecognised_failure_ends_session` (the returned error is that error), `non_retryable_never_retried` (definitional:
+      the else-branch of `afterFailure`), `keygen_and_resharing_never_retried` (with the regenerated `Retryable()` table).
+   6. `model_satisfies_p11`: the predicate the driver evaluates on the real coordinator's observed behaviour holds of the model.
    5. `second_attempt_clean`: the composition (classification → election → follow / announce) for the intended election
       rule; excluded point `self_culprit_point`. `asFound_never_recognises_pool_errors`: the defect as found.
   Interpretation (stated, not hidden): the culprit of a CommunicationError is "nobody" — `handleError` retries with an
@@ -254,39 +256,129 @@ theorem left_out_waits_for_start (e : Err α) (hk : intended e = some .subset) :
     · next r hp => rw [hres] at hp; exact h hp
     · cases hres
 
-/-- **C11-3 (left out, time-outs).** The left-out relayer's wait is limited by `TssTimeout`, not by `CoordinatorTimeout`:
-    for every trace without a silence longer than `TssTimeout`, silences longer than `CoordinatorTimeout` — any number,
-    anywhere — change nothing; it behaves as on the messages alone and does not give up. -/
-theorem left_out_outlasts_coordinator_timeout (tr : List (TEv α)) (h : TEv.quiet .tss ∉ tr) :
-    (runLeftOut tr).timedOut = false ∧ (runLeftOut tr).w = runWait2 (none : Option α) none (msgsOf tr) := by
-  unfold runLeftOut runTimed runWait2
-  generalize (initW : WSt α) = w0
-  induction tr generalizing w0 with
-  | nil => simp [msgsOf]
-  | cons e es ih =>
-    have hes : TEv.quiet .tss ∉ es := fun x => h (List.mem_cons_of_mem _ x)
-    cases e with
-    | msg m => simpa [stepTimed, msgsOf] using ih hes (stepWait2 none none w0 m)
-    | quiet q =>
-      cases q with
-      | tss => exact absurd (List.mem_cons_self) h
-      | coord =>
-        have : stepTimed (none : Option α) none .tss ⟨w0, false⟩ (.quiet .coord) = ⟨w0, false⟩ := by
-          simp only [stepTimed]
-          cases w0.phase <;> simp [expires]
-        simp only [List.foldl_cons, this, msgsOf]
-        exact ih hes w0
+/-- **C11-3 (left out, time-outs).** Time is additive here: the fail watcher `handleError` starts has a `TssTimeout`
+    ticker that nothing re-arms. For every trace of messages and clock ticks whose TOTAL duration stays below
+    `TssTimeout` — however the silence is distributed, in particular with silences longer than `CoordinatorTimeout`,
+    which plays no role — the left-out relayer does not give up and behaves as on the messages alone. -/
+theorem left_out_waits_until_tss_timeout (tssLimit : Nat) (tr : List (CEv α)) (h : ticksOf tr < tssLimit) :
+    (runLeftOut tssLimit tr).timedOut = false ∧
+    (runLeftOut tssLimit tr).w = runWait2 (none : Option α) none (msgsOfC tr) := by
+  have key : ∀ (tr : List (CEv α)) (s : LSt α), s.timedOut = false → s.sinceArm ≤ s.total →
+      s.total + ticksOf tr < tssLimit →
+      (tr.foldl (stepLeftOut tssLimit) s).timedOut = false ∧
+      (tr.foldl (stepLeftOut tssLimit) s).w = (msgsOfC tr).foldl (stepWait2 none none) s.w := by
+    intro tr
+    induction tr with
+    | nil => intro s h1 _ _; exact ⟨h1, rfl⟩
+    | cons x xs ih =>
+      intro s h1 h2 h3
+      simp only [List.foldl_cons]
+      cases x with
+      | msg e =>
+        have e1 : (stepLeftOut tssLimit s (.msg e)).timedOut = false := by simp [stepLeftOut, h1]
+        have e2 : (stepLeftOut tssLimit s (.msg e)).w = stepWait2 none none s.w e := by simp [stepLeftOut, h1]
+        have e3 : (stepLeftOut tssLimit s (.msg e)).total = s.total := by simp [stepLeftOut, h1]
+        have e4 : (stepLeftOut tssLimit s (.msg e)).sinceArm ≤ s.sinceArm := by
+          simp only [stepLeftOut, h1]
+          split
+          · simp at *
+          · simp only []
+            split <;> simp
+        simp only [msgsOfC, List.foldl_cons]
+        have := ih (stepLeftOut tssLimit s (.msg e)) e1 (by omega) (by rw [e3]; simpa [ticksOf] using h3)
+        rw [e2] at this
+        exact this
+      | tick =>
+        simp only [ticksOf] at h3
+        simp only [msgsOfC]
+        cases hp : s.w.phase with
+        | finished r =>
+          have hs : stepLeftOut tssLimit s .tick = s := by simp [stepLeftOut, h1, hp]
+          rw [hs]; exact ih s h1 h2 (by omega)
+        | waiting =>
+          have hs : stepLeftOut tssLimit s .tick = { s with total := s.total + 1, sinceArm := s.sinceArm + 1 } := by
+            have a1 : ¬ tssLimit ≤ s.total + 1 := by omega
+            have a2 : ¬ tssLimit ≤ s.sinceArm + 1 := by omega
+            simp [stepLeftOut, h1, hp, a1, a2]
+          rw [hs]; exact ih _ h1 (by simp only []; omega) (by simp only []; omega)
+        | running =>
+          have hs : stepLeftOut tssLimit s .tick = { s with total := s.total + 1 } := by
+            have a1 : ¬ tssLimit ≤ s.total + 1 := by omega
+            simp [stepLeftOut, h1, hp, a1]
+          rw [hs]; exact ih _ h1 (by simp only []; omega) (by simp only []; omega)
+  have := key tr ⟨initW, 0, 0, false⟩ rfl (Nat.le_refl _) (by simpa using h)
+  exact this
 
-example : (runLeftOut [TEv.quiet .coord, .quiet .coord, .quiet .coord, .msg (Ev.init 2), .msg (Ev.start 2 (some 1))]).w.runs = [1] ∧
-    (runLeftOut [TEv.quiet .coord, .quiet .coord, .quiet .coord, .msg (Ev.init 2), .msg (Ev.start (2 : Nat) (some 1))]).timedOut = false := by
+/-- … and when the total duration reaches `TssTimeout` the wait is over, whatever arrived meanwhile (unless an abort /
+    a malformed start ended the attempt before): the silences ADD UP, a sequence of them each shorter than the limit
+    does end the wait. -/
+theorem left_out_gives_up_at_tss_timeout (tssLimit : Nat) (hpos : 1 ≤ tssLimit) (tr : List (CEv α))
+    (h : tssLimit ≤ ticksOf tr) :
+    (runLeftOut tssLimit tr).timedOut = true ∨ ∃ r, (runLeftOut tssLimit tr).w.phase = .finished r := by
+  have fin_keep : ∀ (s : LSt α) (x : CEv α) (r : Res), s.w.phase = .finished r →
+      (stepLeftOut tssLimit s x).w.phase = .finished r := by
+    intro s x r hr
+    cases x with
+    | tick => simp only [stepLeftOut]; split <;> simp [hr]
+    | msg e =>
+      simp only [stepLeftOut]
+      split
+      · exact hr
+      · cases e <;> simp [stepWait2, stepWait, hr]
+  have to_keep : ∀ (s : LSt α) (x : CEv α), s.timedOut = true → (stepLeftOut tssLimit s x).timedOut = true := by
+    intro s x ht; cases x <;> simp [stepLeftOut, ht]
+  have key : ∀ (tr : List (CEv α)) (s : LSt α),
+      (s.timedOut = true ∨ (∃ r, s.w.phase = .finished r) ∨ (s.total < tssLimit ∧ tssLimit ≤ s.total + ticksOf tr)) →
+      (tr.foldl (stepLeftOut tssLimit) s).timedOut = true ∨ ∃ r, (tr.foldl (stepLeftOut tssLimit) s).w.phase = .finished r := by
+    intro tr
+    induction tr with
+    | nil =>
+      intro s h
+      rcases h with h | h | h
+      · exact Or.inl h
+      · exact Or.inr h
+      · simp only [ticksOf] at h; omega
+    | cons x xs ih =>
+      intro s h
+      simp only [List.foldl_cons]
+      apply ih
+      rcases h with h | ⟨r, hr⟩ | h
+      · exact Or.inl (to_keep s x h)
+      · exact Or.inr (Or.inl ⟨r, fin_keep s x r hr⟩)
+      · by_cases ht : s.timedOut = true
+        · exact Or.inl (to_keep s x ht)
+        · have hnt : s.timedOut = false := by simpa using ht
+          cases x with
+          | msg e =>
+            by_cases hf : ∃ r, (stepLeftOut tssLimit s (.msg e)).w.phase = .finished r
+            · exact Or.inr (Or.inl hf)
+            · right; right
+              have : (stepLeftOut tssLimit s (.msg e)).total = s.total := by simp [stepLeftOut, hnt]
+              rw [this]; simpa [ticksOf] using h
+          | tick =>
+            simp only [ticksOf] at h
+            cases hp : s.w.phase with
+            | finished r => exact Or.inr (Or.inl ⟨r, fin_keep s .tick r hp⟩)
+            | waiting =>
+              by_cases hl : tssLimit ≤ s.total + 1
+              · left; simp [stepLeftOut, hnt, hp, hl]
+              · by_cases hl2 : tssLimit ≤ s.sinceArm + 1
+                · left; simp [stepLeftOut, hnt, hp, hl2]
+                · right; right
+                  have : (stepLeftOut tssLimit s .tick).total = s.total + 1 := by simp [stepLeftOut, hnt, hp, hl, hl2]
+                  rw [this]; omega
+            | running =>
+              by_cases hl : tssLimit ≤ s.total + 1
+              · left; simp [stepLeftOut, hnt, hp, hl]
+              · right; right
+                have : (stepLeftOut tssLimit s .tick).total = s.total + 1 := by simp [stepLeftOut, hnt, hp, hl]
+                rw [this]; omega
+  exact key tr ⟨initW, 0, 0, false⟩ (Or.inr (Or.inr ⟨by show 0 < tssLimit; omega, by simpa using h⟩))
+
+example : -- TssTimeout = 5 units: three silences of 1 unit and a start → runs; silences of 2+2+2 units end the wait
+    (runLeftOut 5 [.tick, .msg (Ev.init 2), .tick, .tick, .msg (Ev.start (2 : Nat) (some 1))]).w.runs = [1] ∧
+    (runLeftOut 5 [.tick, .tick, .msg (Ev.init (2 : Nat)), .tick, .tick, .msg (Ev.init 2), .tick, .tick]).timedOut = true := by
   decide
-
-/-- contrast, stated rather than hidden: a wait limited by `CoordinatorTimeout` (what `start` uses for a KNOWN
-    coordinator) is over after the first such silence, and a silence longer than `TssTimeout` ends the left-out wait too -/
-theorem shorter_limit_expires :
-    (runTimed (none : Option Nat) none .coord [TEv.quiet .coord, .msg (Ev.start 2 (some 1))]).timedOut = true ∧
-    (runTimed (none : Option Nat) none .coord [TEv.quiet .coord, .msg (Ev.start 2 (some 1))]).w.runs = [] ∧
-    (runLeftOut [TEv.quiet .tss, .msg (Ev.start (2 : Nat) (some 1))]).timedOut = true := by decide
 
 /-- **C11 (an unresponsive coordinator is recognised in spite of foreign traffic).** While nothing arrives from the
     coordinator itself, initiate / start / fail messages from any other peer — however many, however often — neither
@@ -343,25 +435,33 @@ example : (runClock (2 : Nat) 3 [.tick, .msg (.init 0), .tick, .msg (.init 1), .
     (runClock (2 : Nat) 3 [.tick, .msg (.init 2), .tick, .tick]).timedOut = false ∧
     (runClock (2 : Nat) 3 [.tick, .msg (.init 2), .tick, .tick]).w.readies = [2] := by decide
 
-/-- **C11-4 (unrecognised failure).** Without any typed error the session ends with that error: no retry, no wait. -/
+/-- **C11-4 (unrecognised failure).** Without any typed error the session ends, and the error `Execute` returns is that
+    very error: no retry, no wait. -/
 theorem unrecognised_failure_ends_session (e : Err α) (retryable : Bool) (hk : intended e = some .unknown) :
-    afterFailure retryable e = .giveUp := by
+    afterFailure retryable e = .giveUp e := by
   unfold afterFailure
   rw [classify_intended e _ hk]
   cases retryable <;> simp [plan]
 
 omit [DecidableEq α] in
 /-- **C11-5 (key generation and resharing).** A process that is not retryable is never retried, whatever the error. -/
-theorem non_retryable_never_retried (e : Err α) : afterFailure false e = .giveUp := by
+theorem non_retryable_never_retried (e : Err α) : afterFailure false e = .giveUp e := by
   simp [afterFailure]
 
-example : afterFailure false (Err.wrap (.wrap (.coord (some (1 : Nat))))) = .giveUp ∧
+omit [DecidableEq α] in
+/-- … which, with the regenerated table of what the six process kinds answer to `Retryable()` (obligation
+    `gen_retryable`), is: key generation and resharing, ECDSA or FROST, are never retried; only signing is. -/
+theorem keygen_and_resharing_never_retried (k : Kind) (hk : k.isSigning = false) (e : Err α) :
+    afterFailure (retryableOf k) e = .giveUp e := by
+  simp [afterFailure, retryableOf, hk]
+
+example : afterFailure false (Err.wrap (.wrap (.coord (some (1 : Nat))))) = .giveUp (.wrap (.wrap (.coord (some 1)))) ∧
     afterFailure true (Err.wrap (.wrap (.coord (some (1 : Nat))))) = .retry [1] ∧
     afterFailure true (Err.pair (.wrap (.wrap .subset)) (.other : Err Nat)) = .waitStart ∧
-    afterFailure true (Err.wrap (.pair (.other : Err Nat) .other)) = .giveUp := by decide
+    afterFailure true (Err.wrap (.pair (.other : Err Nat) .other)) = .giveUp (.wrap (.pair .other .other)) := by decide
 
 /-- excluded point of C11-2, stated rather than hidden: a culprit id that does not parse ends the session -/
-theorem undecodable_culprit_point : afterFailure true (Err.wrap (.tss [(1 : Nat)] false)) = .giveUp := by decide
+theorem undecodable_culprit_point : afterFailure true (Err.wrap (.tss [(1 : Nat)] false)) = .giveUp .other := by decide
 
 /-- observation about comm/elector/bully.go as written (outside the statement proved above, recorded as a known
     finding): a Select message from a peer that is NOT among the candidates — e.g. the excluded culprit — is ranked as
@@ -406,9 +506,9 @@ theorem second_attempt_clean (key : α → Nat) (self : α) (t : Nat) (holders :
       (∀ c ∈ cs, c ∈ holders ∧ c ∉ culprits k) ∧
       (match (secondAttempt bullyElectedListed key self t holders e true claimant arrivals).outcome with
         | .follows c => c ∉ culprits k
-        | .announces S => SubsetOk ⟨self, holders, t, culprits k⟩ arrivals S ∧ ∀ c ∈ culprits k, c ∉ S
+        | .announces _ S => SubsetOk ⟨self, holders, t, culprits k⟩ arrivals S ∧ ∀ c ∈ culprits k, c ∉ S
         | .neverReady => True
-        | .ended => False
+        | .ended _ => False
         | .idle => False) := by
   obtain ⟨haf, hcand, hhold, hsub⟩ := retry_without_culprits e k hk hr holders
   unfold secondAttempt
@@ -430,7 +530,7 @@ theorem second_attempt_clean (key : α → Nat) (self : α) (t : Nat) (holders :
       exact listed_election_follows_no_culprit key self holders (culprits k) claimant hnc
 
 example : secondAttempt bullyElectedListed (fun n : Nat => n) 0 1 [0, 1, 2, 3] (Err.wrap (.wrap (.tss [3] true))) true none [3, 1]
-    = ⟨some [2, 1, 0], .announces [1, 0]⟩ ∧
+    = ⟨some [2, 1, 0], .announces 2 [1, 0]⟩ ∧
   secondAttempt bullyElectedListed (fun n : Nat => n) 0 1 [0, 1, 2, 3] (Err.wrap (.wrap (.tss [3] true))) true (some 2) [3, 1]
     = ⟨some [2, 1, 0], .follows 2⟩ := by decide
 
@@ -438,7 +538,79 @@ example : secondAttempt bullyElectedListed (fun n : Nat => n) 0 1 [0, 1, 2, 3] (
     still wins its own (silent) election and announces a subset containing itself -/
 theorem self_culprit_point :
     secondAttempt bullyElectedListed (fun n : Nat => n) 0 1 [0, 1, 2] (Err.wrap (.tss [0] true)) true none [1]
-      = ⟨some [2, 1], .announces [1, 0]⟩ := by decide
+      = ⟨some [2, 1], .announces 1 [1, 0]⟩ := by decide
+
+/-- **C11 (model_satisfies).** The predicate `P11` — the one the driver evaluates on what the real coordinator was
+    observed to do — holds of what the model does, for every error `e` of unambiguous cause `k`, retryable or not,
+    every claimant and every sequence of ready messages; hypotheses: this relayer holds a key share and, if the process
+    is retryable, is not itself among the culprits (excluded point `self_culprit_point`); the election follows the
+    intended rule (`bullyElectedListed`, known finding C11-bully-unlisted-claimant otherwise). -/
+theorem model_satisfies_p11 (key : α → Nat) (self : α) (t : Nat) (holders : List α) (e : Err α) (k : Class α)
+    (retryable : Bool) (claimant : Option α) (arrivals : List α)
+    (hk : intended e = some k) (hself : self ∈ holders) (hnc : retryable = true → self ∉ culprits k) :
+    P11 self holders t e k retryable
+      (decide (bullyElectedListed key self (nextCandidates holders (culprits k)) claimant = self)) claimant arrivals
+      (seenOf arrivals (secondAttempt bullyElectedListed key self t holders e retryable claimant arrivals)) := by
+  have hcl := classify_intended e k hk
+  cases retryable with
+  | false =>
+    simp only [P11, if_true]
+    simp [secondAttempt, afterFailure, seenOf, EndedWith]
+  | true =>
+    have hnc' := hnc rfl
+    simp only [P11, Bool.true_eq_false, if_false]
+    have retried : ∀ (hr : Retried k),
+        let K := culprits k
+        let o := seenOf arrivals (secondAttempt bullyElectedListed key self t holders e true claimant arrivals)
+        (∃ cs, o.election = some cs ∧ ∀ c ∈ cs, c ∈ holders ∧ c ∉ K) ∧ (∀ c ∈ o.readyTo, c ∉ K) ∧ o.crun = o.start ∧
+        (match o.start with | some S => ∀ c ∈ S, c ∉ K | none => True) ∧
+        (decide (bullyElectedListed key self (nextCandidates holders K) claimant = self) = true →
+          o.consumed ≤ arrivals.length ∧ AnnouncedOk ⟨self, holders, t, K⟩ (arrivals.take o.consumed) arrivals o.start) ∧
+        o.res = .ok := by
+      intro hr
+      obtain ⟨haf, hcand, hhold, _⟩ := retry_without_culprits e k hk hr holders
+      have hselfc : self ∈ nextCandidates holders (culprits k) := by
+        simp only [nextCandidates, excludePeers, List.mem_filter, decide_eq_true_eq]; exact ⟨hself, hnc'⟩
+      have hselfx : self ∉ culprits k := hnc'
+      simp only [secondAttempt, haf]
+      have hel : ∀ c ∈ sortDesc key (nextCandidates holders (culprits k)), c ∈ holders ∧ c ∉ culprits k := by
+        intro c hc
+        have hc' := (sortDesc_perm key _).mem_iff.1 hc
+        exact ⟨hhold c hc', fun hcul => hcand c hcul hc'⟩
+      by_cases helc : bullyElectedListed key self (nextCandidates holders (culprits k)) claimant = self
+      · simp only [helc, if_true, decide_true]
+        cases hi : initiate key ⟨self, holders, t, culprits k⟩ arrivals with
+        | some r =>
+          obtain ⟨n, S⟩ := r
+          have hp := announced_subset_ok_prefix key ⟨self, holders, t, culprits k⟩ hself hselfx arrivals n S hi
+          have hw := announced_subset_ok key ⟨self, holders, t, culprits k⟩ hself hselfx arrivals n S hi
+          simp only [seenOf]
+          refine ⟨⟨_, rfl, hel⟩, by simp, trivial, fun c hc hcul => hw.2.2.2.2.2 c hc hcul, fun _ => ⟨hp.1, hp.2⟩, trivial⟩
+        | none =>
+          have ha := initiate_announcedOk key ⟨self, holders, t, culprits k⟩ hself hselfx arrivals
+          rw [hi] at ha
+          simp only [seenOf]
+          refine ⟨⟨_, rfl, hel⟩, by simp, trivial, trivial, fun _ => ⟨Nat.le_refl _, ?_⟩, trivial⟩
+          simpa [AnnouncedOk] using ha
+      · simp only [helc, if_false, decide_false]
+        simp only [seenOf]
+        refine ⟨⟨_, rfl, hel⟩, ?_, trivial, trivial, by simp, trivial⟩
+        intro c hc
+        simp only [List.mem_singleton] at hc
+        subst hc
+        exact listed_election_follows_no_culprit key self holders (culprits k) claimant hselfx
+    cases k with
+    | unknown =>
+      simp [secondAttempt, afterFailure, hcl, plan, seenOf, EndedWith]
+    | tss cs d =>
+      cases d with
+      | false => simp [secondAttempt, afterFailure, hcl, plan, seenOf, EndedWith]
+      | true => exact retried (by simp [Retried])
+    | subset =>
+      simp only [secondAttempt, afterFailure, hcl, plan, if_true]
+      cases claimant <;> simp [seenOf]
+    | coord p => exact retried (by simp [Retried])
+    | comm => exact retried (by simp [Retried])
 
 omit [DecidableEq α] in
 /-- **the defect as found** (repaired by `fix: classify failed tss attempts with errors.As`): whatever a conc pool
